@@ -26,6 +26,7 @@ type propDef struct {
 	gen          func(master uint64, idx int, tier string) *spec.RunSpec
 	enumerate    func(bin string, master uint64, tier string) ([]*spec.RunSpec, []string) // optional: enumerated part (fault_enumeration); second result = harness problems
 	race         bool
+	raceFrames   string // if set: only data races whose report mentions this package path count for the property
 	rule         string
 	assumptions  []string
 	components   map[string]string // real vs stub
@@ -261,6 +262,11 @@ func cmdCheck(args []string) int {
 		}
 		rr := runAll(rbin, specs[:k], p.wallPerRun*4, deadline)
 		for _, r := range rr {
+			if p.raceFrames != "" && strings.HasPrefix(r.res.Crash, "DATA RACE") && !strings.Contains(r.res.Info["stderr"], p.raceFrames) {
+				// a race elsewhere is another property's business (C15 runs unfiltered)
+				r.res.Notes = append(r.res.Notes, spec.Violation{Property: "C15", Class: "data-race-elsewhere", Detail: r.res.Crash})
+				r.res.Crash = ""
+			}
 			r.res.Info = merge(r.res.Info, map[string]string{"race-build": "true"})
 		}
 		recs = append(recs, rr...)
